@@ -14,6 +14,7 @@ statements need to know one form only:
       returned expression - also spelled as an if-chain of returns - is replaced by that expression
   C7  a nested `def f(a): return e` is `f = lambda a: e`
   C8  negations in test position are pushed inwards (De Morgan)
+  C9  `if a: if b: B` (no else, nothing else in the outer body) is `if a and b: B`
 Line numbers of the originals are kept on the rewritten nodes."""
 import ast
 import copy
@@ -202,6 +203,15 @@ def _stmt(st):
     if isinstance(st, ast.Try):
         for h in st.handlers:
             h.body = _block(h.body)
+    if isinstance(st, ast.If) and not st.orelse and len(st.body) == 1 and isinstance(st.body[0], ast.If) and not st.body[0].orelse:
+        # C9: `if a: if b: B` (nothing else in either) is `if a and b: B`
+        inner = st.body[0]
+        vals = (list(st.test.values) if isinstance(st.test, ast.BoolOp) and isinstance(st.test.op, ast.And) else [st.test]) + \
+               (list(inner.test.values) if isinstance(inner.test, ast.BoolOp) and isinstance(inner.test.op, ast.And) else [inner.test])
+        new = ast.If(test=ast.BoolOp(op=ast.And(), values=vals), body=inner.body, orelse=[])
+        ast.copy_location(new, st)
+        ast.copy_location(new.test, st.test)
+        return _stmt(new)
     if isinstance(st, ast.If):
         # C5: flatten else after a leaving body
         if st.orelse and _leaves(st.body) and not (len(st.orelse) == 1 and isinstance(st.orelse[0], ast.If)):
